@@ -152,14 +152,38 @@ pub fn observe<P: PT, C: Coll<P>>(c: &C, ctx: &Ctx, o: Outcome) -> Step {
 /// Compare one executed step with the row; push one mismatch record per differing facet.
 pub fn compare(row: &Value, ctx: &Ctx, st: &Step, is_set: bool, dr: i64, pre_tree: &Value, pre_alen: u64) -> Vec<(String, Value, Value)> {
     let mut mm = vec![];
-    let exp_ret = ctx.norm(&row["r"]);
+    let mut exp_ret = ctx.norm(&row["r"]);
     let exp_pan = row["pn"].as_bool().unwrap_or(false);
+    let mut got_ret = st.ret.clone();
+    let act = row["e"]["a"].as_str().unwrap_or("");
+    if act == "Retain" && !exp_pan {
+        // the property fixes which entries the predicate sees (each once), not the order of the calls
+        let sort = |v: &Value| -> Value {
+            let mut a: Vec<String> = v.as_array().map(|x| x.iter().map(|y| y.to_string()).collect()).unwrap_or_default();
+            a.sort();
+            json!(a)
+        };
+        exp_ret = sort(&exp_ret);
+        got_ret = sort(&got_ret);
+    }
+    if act == "Find" && row["e"]["kind"] == "find" {
+        // find(q) must address the right entries; at which position it reports itself is left open
+        let proj = |v: &Value| -> Value {
+            match v.get(0) {
+                Some(x) if x.is_object() => json!([{"ok": x["ok"], "it": x["d"]["it"]}]),
+                _ => v.clone(),
+            }
+        };
+        exp_ret = proj(&exp_ret);
+        got_ret = proj(&got_ret);
+    }
+    let st_ret = &got_ret;
     if st.pan != exp_pan {
         mm.push(("pan".into(), json!(exp_pan), json!(st.pan)));
-    } else if !exp_pan && st.ret != exp_ret {
-        mm.push(("ret".into(), exp_ret, st.ret.clone()));
-    } else if exp_pan && row["e"]["a"] == "Retain" && st.ret != exp_ret {
-        mm.push(("ret".into(), exp_ret, st.ret.clone()));
+    } else if !exp_pan && *st_ret != exp_ret {
+        mm.push(("ret".into(), exp_ret, st_ret.clone()));
+    } else if exp_pan && row["e"]["a"] == "Retain" && *st_ret != exp_ret {
+        mm.push(("ret".into(), exp_ret, st_ret.clone()));
     }
     let exp_tree = ctx.norm_tree(&row["t"]);
     if st.tree != exp_tree {
@@ -202,7 +226,12 @@ pub fn compare(row: &Value, ctx: &Ctx, st: &Step, is_set: bool, dr: i64, pre_tre
             mm.push(("grow".into(), json!(want), json!(alen)));
         }
     }
-    if st.acct[2] != x[2] {
+    // the counter is judged against the specification only where the contents are the expected ones
+    // (otherwise len() vs iteration, below, is the criterion)
+    let (mut ee2, mut eg2) = (vec![], vec![]);
+    tree_entries(&exp_tree, &mut ee2);
+    tree_entries(&st.tree, &mut eg2);
+    if ee2.len() == eg2.len() && st.acct[2] != x[2] {
         mm.push(("count".into(), x[2].clone(), st.acct[2].clone()));
     }
     // observation-relative facets, independent of the table
